@@ -297,7 +297,7 @@ Definition run_step (k : list frame) (comp : completion) (c : ctx) : M mres :=
               let acc' := upd_empty v acc in
               match rest with
               | [] => o_run self k' (CNormal acc') c
-              | s :: rest' => exec_labelled 1000%nat c s [] (KSeq rest' acc' :: k')
+              | s :: rest' => exec_labelled LABEL_FUEL c s [] (KSeq rest' acc' :: k')
               end
           | _ => o_run self k' (comp_upd comp acc) c
           end
@@ -316,7 +316,7 @@ Definition run_step (k : list frame) (comp : completion) (c : ctx) : M mres :=
           if loop_continues comp ls then
             let acc' := upd_empty (comp_value comp) acc in
             guard (o_eval self c ce) k' c
-                  (fun v => if to_boolean v then exec_labelled 1000%nat c b [] (KWhile ce b ls acc' :: k')
+                  (fun v => if to_boolean v then exec_labelled LABEL_FUEL c b [] (KWhile ce b ls acc' :: k')
                             else o_run self k' (CNormal acc') c)
           else match comp with
                | CBreak None v => o_run self k' (CNormal (upd_empty v acc)) c
@@ -338,7 +338,7 @@ Definition run_step (k : list frame) (comp : completion) (c : ctx) : M mres :=
           match comp with
           | CNormal _ =>
               guard (match ce with Some e => do v <- o_eval self c e;; ret (to_boolean v) | None => ret true end) k' c
-                    (fun go => if go then exec_labelled 1000%nat c b [] (KForUpdate ce u b ls per acc :: k')
+                    (fun go => if go then exec_labelled LABEL_FUEL c b [] (KForUpdate ce u b ls per acc :: k')
                                else o_run self k' (CNormal acc) c)
           | _ => o_run self k' comp c
           end
@@ -366,7 +366,7 @@ Definition run_step (k : list frame) (comp : completion) (c : ctx) : M mres :=
                        (* a key deleted before it is visited is skipped *)
                        if negb (has_property st ol (KStr x)) then next rest
                        else guard (head_bind outer h (VStr x)) k' outer
-                                  (fun bc => exec_labelled 1000%nat bc b [] (KForIn h obj rest b ls acc' outer :: k'))
+                                  (fun bc => exec_labelled LABEL_FUEL bc b [] (KForIn h obj rest b ls acc' outer :: k'))
                    | _ => unsupported 972%N
                    end
                end) keys
@@ -384,7 +384,7 @@ Definition run_step (k : list frame) (comp : completion) (c : ctx) : M mres :=
                               | Some v =>
                                   (* a throw while binding closes the iterator *)
                                   guard (closing_on_throw self it (head_bind outer h v)) k' outer
-                                        (fun bc => exec_labelled 1000%nat bc b [] (KForOfBody h it nx b ls acc outer :: k'))
+                                        (fun bc => exec_labelled LABEL_FUEL bc b [] (KForOfBody h it nx b ls acc outer :: k'))
                               end)
           | _ => o_run self k' comp outer
           end
